@@ -8,6 +8,16 @@ CHECKS = {
    note="Trusts the translator extract_tables.py (imports the live modules, compiles spuriousSSM.c with main renamed and calls WC/randbasec on all 255 chars; randbasec choice sets are the support of 4096 draws); Lean kernel; axioms propext/Classical.choice/Quot.sound only.",
    technique="Lean 4 theorems (decide over tables regenerated from source + induction), translator tie",
    design="5.11"),
+ "C07": dict(
+   text="Proof: PepperProps/C07.lean proves, for every finite link graph satisfying the documented precondition (same keys, symmetric, key-closed), that the model of propagate_constraints (same round structure as the Python, fuelled loop with fuel proved sufficient) returns for every item exactly the items at even parity distance as equals and at odd parity distance as complements (propagate_exact), creates no junk entries (propagate_keys), never fires its asserts, and is independent of key and adjacency order (order_independent). The model is tied to design/constraints.py by running both on the same random and exhaustively enumerated small graphs; the failing-input oracle is an independent BFS over (item, parity).",
+   note="Model hand-written; correspondence sampled (random graphs up to 400 items, all symmetric graphs on <=3 items in thorough). Python set iteration order is modelled as list order and proved irrelevant. Asymmetric inputs (outside the documented precondition) are not covered.",
+   technique="Lean 4 theorem by loop invariant + counting argument; differential correspondence model vs implementation",
+   design="5.7"),
+ "C08": dict(
+   text="Proof: PepperProps/C08.lean proves over the model of the notation converters (tokenizer + recursive-descent parsers mirroring the pyparsing grammars) that the dot-paren parser accepts exactly the balanced strings and inverts flattening, that expanding the HU form computed by dotParen2HU returns the original structure for every balanced multi-strand structure, that HU expansion is always balanced, that plain / run-length / HU token streams of one structure compile to the identical string, that unbalanced descriptions are rejected, and that an accepted domain-level expansion is balanced with one correctly sized segment per strand. Tied to the code by differential runs of parse_structure_statement, HU2dotParen, extended2dotParen, dotParen2HU and Component.add_structure.",
+   note="Theorems are at token/AST level (plus tokenizer lemma for canonical spacing); arbitrary spacing, zero counts and U0/H0 spellings are covered by the correspondence and by the oracle on the real code (each spelling of a generated tree must compile to the tree's string; exhaustive strings over .()+ up to length 7/9).",
+   technique="Lean 4 theorems (structural induction on structure trees) + differential correspondence",
+   design="5.8"),
 }
 
 NOT_YET = {}
